@@ -1,7 +1,9 @@
 package main
 
 import (
+	"context"
 	"fmt"
+	"os"
 	"strings"
 	"syscall"
 	"time"
@@ -217,6 +219,57 @@ func runC09(res *Result, d *Driver, tier string, seed uint64) {
 		r, _ = env.runProbe(RunSpec{Script: script, SyncFunc: func(int) error { return nil }}, true)
 		check("container-syncafter", o, r)
 	}
+	// a cancellation that arrives AFTER the main process ended on its own (but before the tracer collected that event:
+	// the tracer is busy answering a child's trapped syscall) must not rewrite the verdict: exit code N stays exit code N
+	for _, code := range []int{0, 7, 255} {
+		ctx, cancel := context.WithCancel(context.Background())
+		mainPid := 0
+		h := &c09LateCancel{cancel: cancel, main: &mainPid}
+		script := fmt.Sprintf("fork;sys 102;sleep 2000;endfork;sleep 100;exit %d", code)
+		r, _ := runPtraceProbe(RunSpec{Script: script, Filter: c03BuildFilter(), Handler: h, Ctx: ctx,
+			SyncFunc: func(pid int) error { mainPid = pid; return nil }})
+		cancel()
+		want := runner.StatusNonzeroExitStatus
+		if code == 0 {
+			want = runner.StatusNormal
+		}
+		res.Case(fmt.Sprintf("late-cancel exit %d", code), true, "ptrace-late-cancel")
+		if !h.fired {
+			res.Note("late-cancel exit %d: the main process was not seen as a zombie in time (case not exercised)", code)
+		} else if r.Status != want || r.ExitStatus != code {
+			res.Mismatch(Mismatch{Kind: "oracle", What: "ptrace: the program exited on its own before the run was cancelled; the verdict must be its exit (C09 status table)", Input: script + " ; context cancelled while the main process is a zombie", Impl: fmt.Sprintf("%v exit=%d %s", r.Status, r.ExitStatus, r.Error), Model: fmt.Sprintf("%v exit=%d", want, code), Oracle: "violates"})
+		}
+	}
 	res.Sample("real: ptrace/unshare/container/container-syncafter × `probe raise 11;...` expect status=6 exit=11")
 	res.Note("signals excluded from part B (default action does not terminate, or reserved by libc): %v", strings.Trim(fmt.Sprint(skip), "map[]"))
+}
+
+// c09LateCancel cancels the run from inside the handler of a child's trapped syscall, once the main process has exited
+type c09LateCancel struct {
+	cancel func()
+	main   *int
+	fired  bool
+}
+
+func (h *c09LateCancel) CheckRead(string) ptracer.TraceAction  { return ptracer.TraceAllow }
+func (h *c09LateCancel) CheckWrite(string) ptracer.TraceAction { return ptracer.TraceAllow }
+func (h *c09LateCancel) CheckStat(string) ptracer.TraceAction  { return ptracer.TraceAllow }
+func (h *c09LateCancel) CheckSyscall(n string) ptracer.TraceAction {
+	if n == "getuid" && !h.fired && *h.main > 0 {
+		deadline := time.Now().Add(2 * time.Second)
+		for time.Now().Before(deadline) {
+			st, err := os.ReadFile(fmt.Sprintf("/proc/%d/stat", *h.main))
+			if err != nil {
+				break
+			}
+			if i := strings.LastIndex(string(st), ") "); i >= 0 && len(st) > i+2 && st[i+2] == 'Z' {
+				h.fired = true
+				h.cancel()
+				time.Sleep(20 * time.Millisecond) // let the canceller's kill go out while the tracer is still here
+				break
+			}
+			time.Sleep(time.Millisecond)
+		}
+	}
+	return ptracer.TraceAllow
 }
